@@ -30,13 +30,13 @@ def run(tier, replay_file=None):
     R = common.Run("C19", tier, "model_checking")
     quick = tier == "quick"
     # design: with Dev = {} every step / results response equals the uninterrupted session's
-    mc = tlc.run("Server", dict(consts('{"i1"}', 2, '{}', False, timeouts='{2}', ticks='{2}', maxnow=4 if quick else 6, sv='{0,3}'), L='99'),
+    mc = tlc.run("Server", dict(consts('{"i1"}', 2, '{}', False, timeouts='{2}', ticks='{2}', maxnow=4 if quick else 6, sv='{0,3}'), L='0'),
                  invariants=["Continuity", "RoundTrip", "AliveOK", "GoneOK"], view="View", spec="Spec", timeout=3000)
     if mc.violation:
         R.violation("spec:" + mc.violation, {"trace": mc.trace[:3000]})
     R.cov["states"], R.cov["transitions"] = mc.distinct, mc.generated
     # the listed deviation must make the spec violate Continuity (otherwise the finding is vacuous)
-    dv = tlc.run("Server", dict(consts('{"i1"}', 2, '{"D16b_no_replay"}', False, timeouts='{2}', ticks='{2}', maxnow=4, sv='{0,3}'), L='99'),
+    dv = tlc.run("Server", dict(consts('{"i1"}', 2, '{"D16b_no_replay"}', False, timeouts='{2}', ticks='{2}', maxnow=4, sv='{0,3}'), L='0'),
                  invariants=["Continuity"], view="View", spec="Spec", timeout=3000)
     if dv.violation != "Continuity":
         raise common.Machinery("Dev={D16b_no_replay} does not violate Continuity in the spec: finding mis-modelled")
